@@ -178,6 +178,10 @@ func faults(r *ev.Run) {
 					if c == nil {
 						continue
 					}
+					if r.NumViolations() > 12 {
+						r.Count("fault cases skipped after more than 12 violations had been recorded", 1)
+						continue
+					}
 					kind, i := kind, i
 					rec := faultRec{Pilot: pi, Mode: mode, ReqIdx: i, Kind: wire.KindName[kind]}
 					r.Eval(1)
